@@ -79,7 +79,13 @@ func (dst *Buffer[D]) Append(src *Buffer[D]) {
 	offset := dst.Len()
 	length := src.Len()
 	if dst.Cap() < offset+length {
-		dst.data = append(dst.data, make([]D, length)...)
+		// grow by whole frames: aligning the capacity must not cut it
+		// below the new length when the last frame is partial.
+		grow := length
+		if c := dst.Channels(); c != 0 && (offset+length)%c != 0 {
+			grow += c - (offset+length)%c
+		}
+		dst.data = append(dst.data, make([]D, grow)...)[:offset+length]
 	} else {
 		dst.data = dst.data[:offset+length]
 	}
